@@ -629,7 +629,16 @@ func c03Run(c *core.Ctx) *core.Result {
 		os.Symlink(tg, filepath.Join(dest, nm))
 		add := []*types.Stat{dirStat(nm), fileStat(nm + "/a"), fileStat(nm + "/planted"), dirStat(nm + "/sub"), fileStat(nm + "/sub/a"),
 			{Path: nm + "/top", Mode: uint32(os.ModeSymlink | 0777), Linkname: "x"}}
-		if R.P(1, 2) {
+		if R.P(1, 3) {
+			// two nested directories left out, the entry below the inner one
+			// accepted: behind the link the inner name exists as a real
+			// directory (outside/dir/sub), every level has to be looked at
+			rejectBase = nm + ",sub"
+			tg = core.Pick(R, []string{outside + "/dir", up + rc + "/outside/dir", "../../../outside/dir"})
+			os.Remove(filepath.Join(dest, nm))
+			os.Symlink(tg, filepath.Join(dest, nm))
+			add = []*types.Stat{dirStat(nm), dirStat(nm + "/sub"), fileStat(nm + "/sub/deep"), fileStat(nm + "/sub/planted"), dirStat(nm + "/sub/a"), fileStat(nm + "/sub/a/a")}
+		} else if R.P(1, 2) {
 			// the skipped name one level down
 			add = []*types.Stat{dirStat("hy"), dirStat("hy/" + nm), fileStat("hy/" + nm + "/a"), fileStat("hy/" + nm + "/planted")}
 			os.Remove(filepath.Join(dest, nm))
